@@ -115,6 +115,20 @@ def observe(lib, cases):
         if len(obs) % 7 == 3:      # blanks of every kind between the tokens of each rendering
             wr = random.Random(len(obs))
             texts = [text_of(c[m], lv, lambda: wr.choice(UWS)) for m in ('min', 'full', 'red')]
+        if len(obs) % 5 == 4:
+            # a moment ago the host's cells held other values (the parser is not told when a cell changes), and its listeners
+            # evaluate a formula of their own on the same parser while they answer: what is judged is the evaluation with the
+            # values of now
+            import copy
+            real = h.env
+            other = copy.deepcopy(real)
+            for sset in other['cellsets']:
+                sset['vals'] = [enc(977)]
+            h.env = other
+            h.hooks.update({'cell:post': named_hook, 'var:post': named_hook})
+            for t in texts:
+                h.p.parse(t)
+            h.env = real
         outs = [outcome(h.p.parse(t)) for t in texts]
         if len(obs) % 3 == 2:      # the same three texts once more on the same parser: what is judged is the second evaluation
             outs = [outcome(h.p.parse(t)) for t in texts]
